@@ -122,7 +122,7 @@ fn base_profile() -> Profile {
     p.lambdas = false;
     p.let_ = false;
     p.at = true; // `@name`: a rename has to descend into the operand
-    p.spill = true;
+    p.spill = false;
     p.full_ranges = false;
     p.strings = false;
     p.empty_args = false;
@@ -152,6 +152,9 @@ fn sanitize(t: &FTree) -> FTree {
         FTree::Num(s) if s.len() > 15 => FTree::Num("1234.5".into()),
         // the range name is only used where a range is expected
         FTree::Name(n) if n == "g_rng" => FTree::func("SUM", vec![FTree::Name(n)]),
+        // `@` only directly on a name (`@g_cell`): on anything else the xlsx printer drops an
+        // explicit `@` and the value changes (listed under C09 / C24)
+        FTree::At(x) if !matches!(x.as_ref(), FTree::Name(_)) => *x,
         FTree::Func { name, args } if ["SUM", "MAX", "MIN", "COUNT", "AVERAGE", "INDEX"].contains(&name.as_str()) => {
             let keep_first_only = name == "INDEX";
             let args = args
